@@ -245,6 +245,40 @@ func init() {
 				return
 			}
 		}
+		// the threshold count is part of the policy whatever its value: more
+		// required than branches present (never satisfiable) is another policy,
+		// with another encoding and address, than any satisfiable count
+		{
+			of := []types.SpendPolicy{types.PolicyPublicKey(c.keys[0].PublicKey())}
+			for i := t.Range(0, 2); i > 0; i-- {
+				of = append(of, types.PolicyAbove(uint64(i)))
+			}
+			ns := []uint8{0, uint8(len(of)), uint8(len(of)) + 1, 200, 255}
+			seenAddr := map[types.Address]uint8{}
+			for _, nreq := range ns {
+				q := types.PolicyThreshold(nreq, of)
+				var rw ref.W
+				rw.Policy(q)
+				enc := encAny(q)
+				if !bytes.Equal(enc, rw.B) {
+					w.violate("C14", "policy-encoding", fmt.Sprintf("policy %v: encoding differs from the specified layout (threshold count %d of %d branches)", q, nreq, len(of)))
+					return
+				}
+				var back types.SpendPolicy
+				d := types.NewBufDecoder(enc)
+				back.DecodeFrom(d)
+				if d.Err() != nil || !bytes.Equal(encAny(back), enc) || back.String() != q.String() {
+					w.violate("C14", "policy-roundtrip", fmt.Sprintf("policy %v does not survive decode(encode()): %v, %v", q, back, d.Err()))
+					return
+				}
+				if other, dup := seenAddr[q.Address()]; dup {
+					w.violate("C14", "threshold-count-not-committed", fmt.Sprintf("thresholds requiring %d and %d of the same %d branches have the same address %v", other, nreq, len(of), q.Address()))
+					return
+				}
+				seenAddr[q.Address()] = nreq
+			}
+			w.stats.Inc("probe.P2-threshold-count")
+		}
 		// the standard single-key forms are shorthands, not other addresses
 		{
 			var pk types.PublicKey
